@@ -421,14 +421,18 @@ def withdrawable (h : HubSt) (u : Addr) (now : Nat) : Res Nat :=
     .ok ((ids.map (fun i => entryValue (h.histOr i) (h.waitB u i) (h.waitS u i))).sum)
 
 /-- `execute_withdraw_unbonded` -/
-def withdraw (h : HubSt) (e : HubEnv) (sender : Addr) : Res (HubSt × List Msg) := do
-  if e.now < h.unbonding then throw "time underflow"
-  let h1 ← h.processWithdrawRate (e.now - h.unbonding) e.hubBalance
-  let (amount, ids) := h1.finished sender
-  if amount = 0 then throw "No withdrawable assets are available yet"
-  let h2 := ids.foldl (fun hh i => hh.delWait sender i) h1
-  let prev ← csub e.hubBalance amount
-  pure ({ h2 with prevHubBalance := prev }, [Msg.bankSend e.self sender 0 amount])
+def withdraw (h : HubSt) (e : HubEnv) (sender : Addr) : Res (HubSt × List Msg) :=
+  if e.now < h.unbonding then .error "time underflow"
+  else
+    match h.processWithdrawRate (e.now - h.unbonding) e.hubBalance with
+    | .error err => .error err
+    | .ok h1 =>
+      if (h1.finished sender).1 = 0 then .error "No withdrawable assets are available yet"
+      else if e.hubBalance < (h1.finished sender).1 then .error "overflow"      -- checked_sub
+      else
+        .ok ({ ((h1.finished sender).2.foldl (fun hh i => hh.delWait sender i) h1) with
+                 prevHubBalance := e.hubBalance - (h1.finished sender).1 },
+             [Msg.bankSend e.self sender 0 (h1.finished sender).1])
 
 /-- `execute_update_global` (airdrop_hooks = None) -/
 def updateGlobal (h : HubSt) (e : HubEnv) (sender : Addr) : Res (HubSt × List Msg) := do
